@@ -13,6 +13,10 @@
          search, Formula::substitute (panics exactly on a sort mismatch), completion of a tau*
          theory (the `expect("tau_star did not create a completable theory")`), and the CLASSIC
          rewrites on parser-image trees (C16_classic_portfolio_no_panic, from Proofs/ParserImage.v).
+     (3) about the recorded stack overflow F20, DEPTH ONLY: the tau* formula of a term nests 2 to 5 nodes per operator
+         of the term (C16_val_depth_linear and three exact chain depths; Proofs/TauDepth.v) - nothing about the Rust stack.
+   The property is also known to be false on F20 (abort on deep nesting) and slower than any watchdog on F15, F21, F22
+   (known_findings.jsonl, docs/C16.md); none of that is provable here.
    Statements that only restated the shape of a result type (C16_status_total,
    C16_tptp_numeral_total, C16_tptp_numeral_never_panics) were removed; the exact classification of
    the prover's output is C10_status_ok / C10_status_missing / C10_status_unknown (Properties/C10.v). *)
